@@ -205,7 +205,7 @@ func FromJSON(b []byte) (*Program, error) {
 func (p *Program) Size() int {
 	n := 0
 	for _, f := range p.Funcs {
-		n += 1 + len(f.Params) + sizeStmts(f.Body)
+		n += 6 + len(f.Params) + sizeStmts(f.Body)
 		for _, pa := range f.Params {
 			n += sizeExpr(pa.Def)
 		}
